@@ -591,6 +591,13 @@ func init() {
 						}
 					}
 					c08Septets(c, s, fmt.Sprintf("rand/len%%8=%d", n%8))
+					c.Echo("Pack/Unpack/Decode", func() string {
+						p := g7.Pack(append([]byte(nil), s...))
+						u := g7.Unpack(append([]byte(nil), p...))
+						d, err := g7.Decode(append([]byte(nil), s...))
+						pd, perr := datacoding.GSM7Packed(append([]byte(nil), p...)).Decode()
+						return fmt.Sprintf("%s %s %s %v %s %v", digestBytes(p), digestBytes(u), digestBytes(d), err != nil, digestBytes(pd), perr != nil)
+					})
 					b := c.R.Bytes(c.R.Range(0, 64))
 					if c.R.Chance(1, 3) {
 						for i := range b {
